@@ -32,8 +32,10 @@ def rust_pat(mid, p):
         wild = "(_)" if nargs == 1 else "(_, _)"
         if m8 == 255: inv = f"matching!({wild} if std::hint::black_box(true))"
         elif m8 == 0: inv = f"matching!({wild} if std::hint::black_box(false))"
-        elif nargs == 1 and bin(m8).count("1") <= 2 and p["dbg"] % 2 == 1:
-            # one or two accepted arguments as UNGUARDED literal alternatives (a call with the first one matches a non-last alternative)
+        elif nargs == 1 and bin(m8).count("1") <= 2 and p["macro"] == "lit":
+            # one or two accepted arguments as UNGUARDED literal alternatives (a call with the first one matches a non-last alternative);
+            # only where the generator knows that the pattern is never REJECTING a call: an unguarded pattern adds mismatch diagnostics
+            # to the error text, which the Layer A model does not print
             bits = [k for k in range(8) if (m8 >> k) & 1]
             inv = f"matching!(({bits[0]}) | ({bits[1] if len(bits) == 2 else 200}))"
         elif nargs == 1 and p["dbg"] % 2 == 0:
